@@ -9,8 +9,8 @@ from . import common, doc as D
 
 
 def _conv(job):
-    svg = job
-    r = D.convert(svg)
+    svg, opts = job
+    r = D.convert(svg, **opts)
     if r[0] != "ok":
         return {"k": "exc", "t": r[1]}, r[1] + ": " + r[2]
     try:
@@ -106,6 +106,23 @@ def template_family():
     return res
 
 
+def text_family():
+    """documents with text content, converted with allow_text (text passes through): character data is
+    modelled as #chars nodes so that noise lands between any two chunks"""
+    def el(d, tag, at=None):
+        return {"d": d, "tag": tag, "id": "", "at": at or [], "g": [], "ref": ""}
+
+    def ch(d, t):
+        return {"d": d, "tag": "#chars", "id": "", "at": [], "g": [], "ref": "", "text": t}
+    rect = {"d": 1, "tag": "rect", "id": "", "at": [["fill", "red", 0]], "g": [1, 1, 6, 5, -1, -1], "ref": ""}
+    docs = []
+    docs.append([rect, el(1, "text"), ch(2, "a"), ch(2, "b"), el(2, "tspan"), ch(3, "c"), ch(2, "d")])
+    docs.append([el(1, "g", [["opacity", 1, 0]]), dict(rect, d=2), el(2, "text", [["fill", "blue", 0]]), ch(3, "t"), ch(3, "u"),
+                 dict(rect, d=1, g=[8, 8, 5, 5, -1, -1])])
+    docs.append([el(1, "text"), ch(2, "k"), el(2, "tspan"), ch(3, "l"), el(3, "tspan"), ch(4, "m"), ch(3, "n"), ch(2, "o"), rect])
+    return [{"vb": [0, 0, 16, 16], "view": [0, 0, 16, 16], "root": [], "nodes": n, "opts": {"allow_text": True}} for n in docs]
+
+
 def run(out, tier):
     wd = common.workdir("c14")
     try:
@@ -149,17 +166,19 @@ def run(out, tier):
                 have |= features(best)
                 bases.append(best)
         bases.extend(template_family())
+        bases.extend(text_family())
         path = os.path.join(wd, "bases.ndjson")
         common.write_ndjson(path, bases)
         r = common.tlc("Noise", "Noise.cfg", wd, env={"DOCS": path}, timeout=3600, heap="8g")
         out.add_tlc(r)
         variants = r.json_lines("CASE")
         base_svgs = [D.concretise(d) for d in bases]
-        jobs = list(base_svgs) + [D.concretise(v["doc"], flags=v["flags"]) for v in variants]
+        jobs = [(s_, d.get("opts", {})) for s_, d in zip(base_svgs, bases)] + \
+               [(D.concretise(v["doc"], flags=v["flags"]), bases[v["base"] - 1].get("opts", {})) for v in variants]
         res = common.pmap(_conv, jobs)
         base_res = res[:len(bases)]
         recs, meta = [], []
-        for v, (o, txt), svg in zip(variants, res[len(bases):], jobs[len(bases):]):
+        for v, (o, txt), (svg, _o) in zip(variants, res[len(bases):], jobs[len(bases):]):
             b = v["base"] - 1
             recs.append({"ai": b + 1, "b": o})
             meta.append((base_svgs[b], svg, v["kind"], v["pos"], base_res[b][1], txt))
